@@ -1,5 +1,6 @@
 (* C17: non-vacuity examples for the theorems over the reals. *)
 From Coq Require Import Reals Lra List.
+From PAFCommon Require Import Lists.
 From PAFC17 Require Import Model ProofsT ProofsR.
 Import ListNotations.
 Local Open Scope R_scope.
@@ -20,3 +21,10 @@ Proof. split; [reflexivity|]. repeat constructor. exists 1, (1 / 2). split; [ref
 
 Example moment_hypothesis : 1 * 1 < 2.
 Proof. lra. Qed.
+
+(* hypotheses of C17_normal_project_end_to_end hold for two samples 0, 2 with log-weights 0, 0 *)
+Example project_hypotheses :
+  let W := seqsum Rops (expw [0; 0]) in
+  (seqsum Rops (map2 Rmult [0; 2] (expw [0; 0])) / W) * (seqsum Rops (map2 Rmult [0; 2] (expw [0; 0])) / W)
+  < seqsum Rops (map2 Rmult (map (fun x => x * x) [0; 2]) (expw [0; 0])) / W.
+Proof. cbn. unfold seqsum. cbn. rewrite exp_0. lra. Qed.
